@@ -264,4 +264,8 @@ def run(ctx):
     ctx.check(callers["will_log"] <= {SS + "::<ctor>"}, "R10.4", "nitro::log::logger::will_log", "only-constructor-filters", "logger::will_log is called from %s" % sorted(callers["will_log"]), "-")
     ctx.check(callers["sink"] <= {"nitro::log::logger::log"} and len(callers["sink"]) == 1, "R10.4", "Sink::sink", "only-log-calls-sink", "Sink::sink is called from %s" % sorted(callers["sink"]), "-")
     ctx.check(callers["format"] <= {"nitro::log::logger::log"} and len(callers["format"]) == 1, "R10.4", "Formatter::format", "only-log-calls-formatter", "Formatter::format is called from %s" % sorted(callers["format"]), "-")
+    # the runtime filter that decides is the one that was configured for THIS logger (R05.4's threshold rule re-evaluated)
+    if ctx.prop == "C10" and not getattr(ctx, "_sharing", False):
+        from .common import share
+        share(ctx, "C05", ("R05.4",), "R10.4", "filter obligations shared with C05", 5)
     ctx.assume("optimiser-level cost of a disabled statement is not decided")
